@@ -16,8 +16,8 @@
 (*                                                                         *)
 (* The trace file (env TRACE_FILE) is a JSON array of traces recorded by   *)
 (* record.install_sampler_life with the C02 facet callbacks; events        *)
-(*   begin | step(pid, win, mh, moved, acc, cache_ok, finite_ok) | cb |    *)
-(*   end | get | reinit | setstate | sethist                               *)
+(*   step(pid, win, mh, moved, acc, cache_ok, finite_ok) and any other     *)
+(*   life-cycle event (begin, cb, end, get, reinit, setstate, tune, ...)   *)
 (* Only steps of Metropolis-type samplers (mh = 1) made inside the         *)
 (* sampler's own sample()/warmup() window (win = 1) are judged: a step     *)
 (* driven from outside (HybridGibbs re-targets the sampler between steps;  *)
@@ -52,7 +52,10 @@ TStep == /\ IsEvent("step")
             ELSE UNCHANGED judged
          /\ UNCHANGED vars
 
-TOther == /\ \E e \in {"begin", "cb", "end", "get", "reinit", "setstate", "sethist"} : IsEvent(e)
+\* every other event of the life-cycle recorder (begin, cb, end, get, reinit, setstate, sethist, tune, and whatever
+\* record.install_sampler_life logs in the future for the properties it serves) is not a kernel transition: skipped.
+\* (A closed list of names here made every trace with a warm-up fail when the recorder started to log `tune`.)
+TOther == /\ l <= Len(Ev) /\ Ev[l].e # "step" /\ l' = l + 1 /\ UNCHANGED tid
           /\ UNCHANGED <<vars, judged>>
 
 TraceNext == TStep \/ TOther
